@@ -173,6 +173,15 @@ def bystander_family(tier="quick"):
         s["workers"] = dict(s["workers"], fby={"*": [["delay", ["ok", {"by": 1}]]]})
         s["starts"] = [{"machine": "by", "name": "b1", "input": {"q": 1}}] + s["starts"]
         out.append(s)
+    # every poison event arriving while the bystander holds an unacknowledged Task event (and later a Wait event)
+    for s0 in poison_corpus():
+        s = copy.deepcopy(s0)
+        s["name"] = "by+" + s0["name"]
+        s["family"] = "bystander+" + s0["family"]
+        s["machines"]["by"] = {"definition": by}
+        s["workers"] = dict(s["workers"], fby={"*": [["delay", ["ok", {"by": 1}]]]})
+        s["script"] = [{"op": "start", "machine": "by", "name": "b1", "input": {"q": 1}}] + s["script"]
+        out.append(s)
     return out
 
 def observability_family(tier="quick"):
